@@ -194,10 +194,10 @@ for n, props, sym, kw in [
 
 # ---------------------------------------------------------------- Stream / Sink adapters (C14)
 for n, props, sym, kw in [
-    ("fs_stream_item_poll", ["C14"], "span id, token fields, inner stream Pending or Ready(Some)", dict(mem_gb=20, cap_s=1500)),
-    ("fs_stream_end_root", ["C14"], "span id, collect id, token fields", dict(mem_gb=24, cap_s=1800, flags=NOCHK + ["--no-overflow-checks"])),
-    ("fs_sink_send_calls", ["C14"], "span id, which of poll_ready/start_send/poll_flush, inner result Ready(Ok)/Ready(Err)/Pending", dict(mem_gb=24, cap_s=1800)),
-    ("fs_sink_close_root", ["C14"], "span id, close Pending or Ready", dict(mem_gb=24, cap_s=1800, flags=NOCHK + ["--no-overflow-checks"])),
+    ("fs_stream_item_poll", ["C14"], "span id, token fields, inner stream Pending or Ready(Some)", dict(mem_gb=16, cap_s=1500)),
+    ("fs_stream_end_root", ["C14"], "span id, collect id, token fields", dict(mem_gb=16, cap_s=1800, flags=NOCHK + ["--no-overflow-checks"])),
+    ("fs_sink_send_calls", ["C14"], "span id, which of poll_ready/start_send/poll_flush, inner result Ready(Ok)/Ready(Err)/Pending", dict(mem_gb=18, cap_s=1800)),
+    ("fs_sink_close_root", ["C14"], "span id, close Pending or Ready", dict(mem_gb=16, cap_s=1800, flags=NOCHK + ["--no-overflow-checks"])),
     ("fs_noop", ["C14", "C16"], "none", {}),
 ]:
     H("fastrace-futures", "", n, props, sym=sym, bound="one adapter, one call, hand-written Stream (<=1 item) / Sink", models=SPM, **kw)
